@@ -65,4 +65,54 @@ pub fn run(out: &mut Out, tier: &str, rng: &mut Rng) {
             }
         }
     }
+    // --- many more envelopes (bounds off every "nice" grid: odd, prime, adjacent, extreme, idle = max), each with the
+    // requested speeds at and around its own bounds, the ends of the u16 range and a random sample
+    let mut envelopes: Vec<(u16, u16, u64)> = vec![(805, 2100, 2000), (800, 2105, 2000), (801, 2099, 2000), (7, 13, 300), (999, 1001, 2000),
+        (0, 0, 100), (65535, 65535, 100), (1, 65534, 2000), (899, 2201, 1), (123, 45678, 2000), (2100, 2100, 2000), (0, 9, 50), (65526, 65535, 2000)];
+    for _ in 0..(if tier == "thorough" { 200 } else { 20 }) {
+        let a = (rng.next() & 0xFFFF) as u16;
+        let b = (rng.next() & 0xFFFF) as u16;
+        envelopes.push((a.min(b), a.max(b), 1 + rng.below(5000)));
+    }
+    for (idle, max, tmo) in envelopes {
+        let gov = Governor::new(idle, max, Duration::from_millis(tmo));
+        let mut rpms: Vec<u16> = vec![0, 1, 9, 10, 11, 65525, 65534, 65535];
+        for c in [idle, max] {
+            for d in -11i32..=11 {
+                let v = c as i32 + d;
+                if (0..=65535).contains(&v) {
+                    rpms.push(v as u16);
+                }
+            }
+        }
+        for _ in 0..24 {
+            rpms.push((rng.next() & 0xFFFF) as u16);
+        }
+        for ss in STATES {
+            for cs in STATES {
+                for (age_tok, d) in [(-1i64, None), (0, Some(Duration::from_millis(0))), ((tmo + 10_000) as i64, Some(Duration::from_millis(tmo + 10_000)))] {
+                    for &rpm in &rpms {
+                        // the reported speed sometimes equals the requested one (a decision must not depend on that)
+                        let sig_rpm = if rng.chance(1, 3) { rpm } else { (rng.next() & 0xFFFF) as u16 };
+                        let sig = Engine { driver_demand: 0, actual_engine: 0, rpm: sig_rpm, state: ss };
+                        let cmd = Engine { driver_demand: 0, actual_engine: 0, rpm, state: cs };
+                        let inst = match d {
+                            None => None,
+                            Some(d) => match Instant::now().checked_sub(d) {
+                                Some(i) => Some(i),
+                                None => continue,
+                            },
+                        };
+                        let r = gov.next_state(&sig, &cmd, inst);
+                        out.case(
+                            &format!("{} {} {} {} {} {} {} {}", idle, max, tmo, ss as u8, sig_rpm, cs as u8, rpm, age_tok),
+                            &format!("{} {} {} {}", r.driver_demand, r.actual_engine, r.rpm, r.state as u8),
+                            true,
+                        );
+                    }
+                }
+            }
+        }
+        out.count("envelope off the grid");
+    }
 }
